@@ -20,9 +20,9 @@ from .. import rowlib as R
 from . import c07
 
 MANIFEST = dict(
-    text="Proof (partial): Lean theorems over the hand model of RowParser.parse_row: column_perm (any reordering that keeps the order of the columns of each top-level field — every schema, via the frame lemma of find_entry), asterisk_expand / asterisk_broadcast (every schema, every row), short_eq_long and message_text_eq_main_arg (every entry of the source's basic_header_dict / row_type_to_main_arg, any cell text and any other columns; tables re-extracted each run) plus star_element_eq_indexed_cell (edges.*.b element = edges.k.b cell), positional_eq_keyword_partial under Unambiguous with the kernel-checked counterexample positional_needs_Unambiguous (finding F-C09-a), layout_independent_partial (spread vs packed; corollary of C07 for its proved family). General statements layout_independent_full / positional_eq_keyword_full stay visible. Model tied to the code on every generated layout; direct oracle: ALL equivalent layouts of a value (spread/packed per field, | or ; list cells, positional/keyword/mixed records, * columns with broadcast, short/long flow headers, column permutations) parse to pairwise equal rows on the real code, incl. the inputs of tests/test_differentways.py and tests/test_full_rows.py.",
+    text="Proof: Lean theorems over the hand model of RowParser.parse_row, all for unbounded inputs: layout_independent (for EVERY row model of C07's general family — any nesting of basic types, untyped lists, List[T], sub-records with consistent remap tables, remapped headers — any two layouts that are LayoutOk for the value give rows that parse equally; layout_independent_flow for the real FlowRowModel; corollaries of C07.parse_unparse), short_row_eq_indexed_row (ONE whole-row statement: a flow row with short headers — from, condition, condition_var, …, message_text, _nodeId — and * columns, any mixture with long/plain headers, any cell texts, any number of edges, parses exactly like its fully indexed form edges.k.from_, edges.k.condition.value, mainarg_…; composes short_eq_long, message_text_eq_main_arg, asterisk_expand, asterisk_broadcast and star_element_eq_indexed_cell through the fold of parse_row; tables re-extracted each run), column_perm (any reordering that keeps the order of the columns of each top-level field — every schema, via the frame lemma of find_entry), asterisk_expand / asterisk_broadcast (every schema, every row), positional_eq_keyword (general: the inductive relation Enc ty v pv — pv is AN encoding of v: lists element by element or as a single value, records by entries that are each positional or key;value in any mixture and order, entries being encodings in turn, to any depth: sub-records and lists given positionally inside records, lists of records — any two encodings of a value decode equally, to the value; by rule induction; cell-level corollary positional_eq_keyword_cells; special cases mixed_eq_keyword and positional_eq_keyword_partial on the cell texts written by join_from_lists), under the side condition that no positional entry and not the whole value looks like a key;value pair, with the kernel-checked counterexamples positional_needs_Unambiguous / mixed_needs_UnambiguousM / positional_entry_needs_unambiguous (finding F-C09-a). Model tied to the code on every generated layout; direct oracle: ALL equivalent layouts of a value (spread/packed per field, | or ; list cells, positional/keyword/mixed records, * columns with broadcast, short/long flow headers, column permutations) parse to pairwise equal rows on the real code, incl. the inputs of tests/test_differentways.py and tests/test_full_rows.py.",
     ref="§5 C09",
-    note="Trusts: Lean kernel (axioms audited each run), the differential harness and Driver JSON codec, pydantic v1, CPython primitives as modelled. The documented keyword/positional ambiguity (F-C09-a) is a hypothesis (Unambiguous); the main stream avoids it, a deterministic stream shows it. The whole-row composition 'short row = fully indexed row' is checked by kernel evaluation on concrete rows and by the oracle, not stated as one theorem.",
+    note="Trusts: Lean kernel (axioms audited each run), the differential harness and Driver JSON codec, pydantic v1, CPython primitives as modelled. The documented keyword/positional ambiguity (F-C09-a) is a hypothesis (Unambiguous); the main stream avoids it, a deterministic stream shows it. The whole-row theorem short_row_eq_indexed_row covers rows whose * columns are the string leaves of an edge (what the short headers stand for) holding flat lists, and whose indexed columns are pairwise different (a Python dict); both restrictions have kernel-checked witnesses (short_row_needs_string_leaves, short_row_needs_flat_star_cells).",
     technique="Lean 4 proof (frame lemma + lookup-equivalence for column order; fold algebra for * columns; T1-tied remap tables) + model/code correspondence + per-value layout enumeration through the real parser",
 )
 
@@ -745,9 +745,10 @@ def run(ck: core.Check):
 
 
 PARTIAL_GAP = [
-    "asterisk_expand / asterisk_broadcast / column_perm are proved for every schema; short_eq_long and message_text_eq_main_arg for the flow row schema with the T1 tables, for arbitrary other columns and cell texts",
-    "layout_independent_partial (spread vs packed) holds for the family of C07's parse_unparse_partial; positional_eq_keyword_partial for records of basic-typed fields (positional prefix of any length vs the key/value cell); the general statements layout_independent_full / positional_eq_keyword_full (nested records, mixed positional+keyword entries, lists of records) are stated, not proved — exercised by tie + oracle",
-    "short headers are proved equal to the long `*` forms (edges.*.from_ …) for whole rows, and each element of such a `*` column equal to the cell of the indexed column edges.k.… (star_element_eq_indexed_cell, per entry); the two are not composed into one whole-row theorem `short row = fully indexed row` (needs the splitting of the joined cell, C08's split_join, threaded through the fold) — that composition is shown on concrete rows by kernel evaluation and by the tie/oracle",
+    "asterisk_expand / asterisk_broadcast / column_perm are proved for every schema; short_eq_long, message_text_eq_main_arg and the whole-row short_row_eq_indexed_row for the flow row schema with the T1 tables, for arbitrary other columns and cell texts",
+    "layout_independent holds for the whole family of C07's general theorem parse_unparse (any nesting, remapped headers, FlowRowModel itself)",
+    "positional vs keyword is proved in general at the level of parsed cell values (positional_eq_keyword over the relation Enc: any nesting, mixed entries, lists of records) with cell-text corollaries; the keyword-first ambiguity (F-C09-a) is a hypothesis at both the whole-value and the entry level, each with a kernel-checked witness",
+    "short_row_eq_indexed_row covers rows whose * columns are the string leaves of an edge holding flat lists (witnesses short_row_needs_string_leaves / short_row_needs_flat_star_cells); str() of a list-valued element is a Python repr, outside the model",
 ]
 
 
